@@ -75,7 +75,7 @@ pub fn run(tier: Tier) -> Report {
     let a = axis(4.0, tier.pick(56, 1000));
     let al = a.len() as u64;
     let total = al * al * al;
-    let acc = par_chunks(total, 1 << 15, |acc, lo, hi| {
+    let acc = par_chunks_varied(total, 1 << 15, |acc, lo, hi| {
         let px: Vec<[f32; 3]> = (lo..hi).map(|i| [a[(i / (al * al)) as usize], a[((i / al) % al) as usize], a[(i % al) as usize]]).collect();
         check_fwd(acc, "cube[0,4]", lo, &px);
         if lo == 0 {
@@ -89,7 +89,7 @@ pub fn run(tier: Tier) -> Report {
     let g: Vec<f32> = (0..=steps).map(|i| (-1.0 + 5.0 * i as f64 / steps as f64) as f32).collect();
     let gl = g.len() as u64;
     let ntotal = gl * gl * gl;
-    let acc = par_chunks(ntotal, 1 << 15, |acc, lo, hi| {
+    let acc = par_chunks_varied(ntotal, 1 << 15, |acc, lo, hi| {
         let mut px = Vec::new();
         for i in lo..hi {
             let p = [g[(i / (gl * gl)) as usize], g[((i / gl) % gl) as usize], g[(i % gl) as usize]];
@@ -192,7 +192,7 @@ pub fn run_c05(tier: Tier) -> Report {
     let a = axis(1.0, tier.pick(56, 1000));
     let al = a.len() as u64;
     let total = al * al * al;
-    let acc = par_chunks(total, 1 << 15, |acc, lo, hi| {
+    let acc = par_chunks_varied(total, 1 << 15, |acc, lo, hi| {
         let px: Vec<[f32; 3]> = (lo..hi).map(|i| [a[(i / (al * al)) as usize], a[((i / al) % al) as usize], a[(i % al) as usize]]).collect();
         check_rt(acc, lo, &px);
         if lo == 0 {
